@@ -1,6 +1,7 @@
 SPECIFICATION PSpec
 CONSTANTS
   NKeys = 0
+  ReW = {}
   Vals = {}
   Wt = {}
   Depth = 0
